@@ -452,6 +452,29 @@ func ruleGossipVerdict(c *Ctx) {
 			inElse := false
 			var cur ast.Node = r
 			for p := parents[cur]; p != nil; cur, p = p, parents[p] {
+				// a case of a switch governs like the equivalent if / else-if / else
+				if cc, ok := p.(*ast.CaseClause); ok {
+					if sw, ok := parents[parents[cc]].(*ast.SwitchStmt); ok {
+						var cond ast.Expr
+						for _, e := range cc.List {
+							ce := e
+							if sw.Tag != nil {
+								ce = &ast.BinaryExpr{X: sw.Tag, Op: token.EQL, Y: e, OpPos: e.Pos()}
+							}
+							if cond == nil {
+								cond = ce
+							} else {
+								cond = &ast.BinaryExpr{X: cond, Op: token.LOR, Y: ce, OpPos: e.Pos()}
+							}
+						}
+						ifs = &ast.IfStmt{If: cc.Pos(), Init: sw.Init, Cond: cond, Body: &ast.BlockStmt{Lbrace: cc.Colon, List: cc.Body, Rbrace: cc.End()}}
+						if cond == nil {
+							inElse = true
+							ifs.Cond = &ast.Ident{NamePos: cc.Pos(), Name: "default"}
+						}
+						break
+					}
+				}
 				if i2, ok := p.(*ast.IfStmt); ok {
 					if cur == ast.Node(i2.Body) {
 						ifs = i2
